@@ -1247,6 +1247,90 @@ Proof.
 Qed.
 
 (* ------------------------------------------------------------------------------------ *)
+(* 17. a body cut at SecRequestBodyLimit is always reported                              *)
+(* ------------------------------------------------------------------------------------ *)
+
+Section Stream.
+Variable limit : nat.
+Variable reject : bool.
+Variable process : bytes -> txv -> txv.
+Hypothesis limit_pos : (0 < limit)%nat.
+
+Lemma bs_run_inbound s : bs_inbound (bs_run process s) = bs_inbound s.
+Proof. unfold bs_run. destruct (bs_interrupted s || bs_processed s); reflexivity. Qed.
+
+Lemma body_step_inbound_mono s c : bs_inbound s = true -> bs_inbound (body_step limit reject process s c) = true.
+Proof.
+  intro H. destruct c as [api chunk]. unfold body_step.
+  destruct (limit =? length (bs_buf s))%nat; [exact H|].
+  destruct api.
+  - destruct (limit <=? _)%nat; [destruct reject; [reflexivity|now rewrite bs_run_inbound]|exact H].
+  - destruct (limit <=? _)%nat; [destruct reject; [reflexivity|now rewrite bs_run_inbound]|exact H].
+  - destruct (_ =? limit)%nat; [destruct reject; [reflexivity|now rewrite bs_run_inbound]|exact H].
+Qed.
+
+(* as long as INBOUND_DATA_ERROR is unset: nothing interrupted, nothing processed, the buffer is
+   everything handed in so far and is strictly below the limit *)
+Definition quiet (t0 : txv) (done : bytes) (s : bstate) : Prop :=
+  bs_interrupted s = false /\ bs_processed s = false /\ bs_buf s = done /\ bs_tx s = t0 /\
+  (length done < limit)%nat.
+
+Lemma body_step_quiet t0 done s c :
+  (bs_inbound s = false -> quiet t0 done s) ->
+  bs_inbound (body_step limit reject process s c) = false ->
+  quiet t0 (done ++ snd c) (body_step limit reject process s c).
+Proof.
+  intros Inv H.
+  assert (Hs : bs_inbound s = false).
+  { destruct (bs_inbound s) eqn:E; [|reflexivity]. rewrite body_step_inbound_mono in H by exact E. discriminate. }
+  destruct (Inv Hs) as (Hi & Hp & Hb & Ht & Hl). clear Inv.
+  destruct c as [api chunk]. cbn [snd]. unfold body_step in *.
+  rewrite Hb in *.
+  destruct (limit =? length done)%nat eqn:E0; [apply Nat.eqb_eq in E0; lia|].
+  destruct api.
+  - destruct (limit <=? length done + length chunk)%nat eqn:E1.
+    + destruct reject; [discriminate|]. rewrite bs_run_inbound in H. discriminate.
+    + apply Nat.leb_gt in E1. unfold quiet. cbn. rewrite app_length. repeat split; auto.
+  - destruct (limit <=? length done + length chunk)%nat eqn:E1.
+    + destruct reject; [discriminate|]. rewrite bs_run_inbound in H. discriminate.
+    + apply Nat.leb_gt in E1. unfold quiet. cbn. rewrite app_length. repeat split; auto.
+  - destruct (length (done ++ firstn (limit - length done) chunk) =? limit)%nat eqn:E1.
+    + destruct reject; [discriminate|]. rewrite bs_run_inbound in H. discriminate.
+    + apply Nat.eqb_neq in E1. rewrite app_length, firstn_length in E1.
+      assert (Hc : (length chunk < limit - length done)%nat) by lia.
+      rewrite firstn_all2 by lia. unfold quiet. cbn. rewrite app_length. repeat split; auto. lia.
+Qed.
+
+Lemma fold_quiet t0 chunks : forall done s,
+  (bs_inbound s = false -> quiet t0 done s) ->
+  bs_inbound (fold_left (body_step limit reject process) chunks s) = false ->
+  quiet t0 (done ++ concat (map snd chunks)) (fold_left (body_step limit reject process) chunks s).
+Proof.
+  induction chunks as [|c chunks IH]; intros done s Inv H; cbn [fold_left map concat] in *.
+  - rewrite app_nil_r. now apply Inv.
+  - rewrite app_assoc. apply IH; [|exact H].
+    intro H1. now apply body_step_quiet.
+Qed.
+
+(* for every sequence of chunks through any of the three entry points, both limit actions:
+   if INBOUND_DATA_ERROR is not raised then nothing was cut - no interruption, the buffer is
+   the whole body and the body processor ran exactly once, on the whole body *)
+Theorem body_limit_signalled chunks t0 :
+  let s := body_stream limit reject process chunks t0 in
+  bs_inbound s = false ->
+  bs_interrupted s = false /\ bs_buf s = concat (map snd chunks) /\
+  bs_tx s = process (concat (map snd chunks)) t0.
+Proof.
+  intros s H. unfold s, body_stream in *. rewrite bs_run_inbound in H.
+  pose proof (fold_quiet t0 chunks [] (mk_bst [] false false false t0)) as Q.
+  cbn [app] in Q. destruct Q as (Hi & Hp & Hb & Ht & Hl); [|exact H|].
+  { intros _. unfold quiet. cbn. repeat split; auto. }
+  unfold bs_run. rewrite Hi, Hp. cbn [orb bs_interrupted bs_buf bs_tx]. rewrite Hb, Ht. auto.
+Qed.
+
+End Stream.
+
+(* ------------------------------------------------------------------------------------ *)
 (* 13. statements as used in Props/C03.v                                                 *)
 (* ------------------------------------------------------------------------------------ *)
 
